@@ -8,6 +8,8 @@ package dialer
 // It contains no logic of its own beyond formatting.
 
 import (
+	"context"
+	"errors"
 	"fmt"
 	"sort"
 	"strconv"
@@ -35,6 +37,44 @@ func VerifC15Traffic(d *Dialer, typ *NetworkType) bool {
 	was := d.MustGetAlive(typ)
 	d.ReportAvailableTraffic(typ)
 	return !was && d.MustGetAlive(typ)
+}
+
+// VerifC15Probe runs the REAL Dialer.Check (two attempts, the skip rule, markAvailable /
+// markUnavailable + informDialerGroupUpdate) with a stub CheckFunc.
+// outcome 0: success -> ("sample", the latency Check measured and stored, true)
+// outcome 1: ok=false, err=nil ("no applicable IP") -> ("skip", 0, current flag): nothing may change
+// outcome 2: error -> ("told", 0, alive flag after markUnavailable)
+func VerifC15Probe(d *Dialer, typ *NetworkType, outcome int) (string, time.Duration, bool) {
+	opts := &CheckOption{networkType: typ, CheckFunc: func(ctx context.Context, _ *NetworkType) (bool, error) {
+		switch outcome {
+		case 0:
+			return true, nil
+		case 1:
+			return false, nil
+		default:
+			return false, errors.New("verif: probe failed")
+		}
+	}}
+	_, _ = d.Check(opts)
+	switch outcome {
+	case 0:
+		l, _ := d.mustGetCollection(typ).Latencies10.LastLatency()
+		return "sample", l, true
+	case 1:
+		return "skip", 0, d.MustGetAlive(typ)
+	default:
+		return "told", 0, d.MustGetAlive(typ)
+	}
+}
+
+// VerifC15SetBackoffLevel puts the dialer's recovery domain of `typ` at backoff level k (environment
+// manipulation: the penalty is an input of the sets; how levels evolve is C16's subject).
+func VerifC15SetBackoffLevel(d *Dialer, typ *NetworkType, k int) {
+	m := d.ensureRecoveryManager()
+	st := m.state(m.indexForType(typ))
+	st.Lock()
+	st.backoffLevel = k
+	st.Unlock()
 }
 
 func VerifC15Penalty(d *Dialer, typ *NetworkType) time.Duration {
@@ -106,6 +146,16 @@ func VerifC15SetDump(a *AliveDialerSet, dialers []*Dialer) string {
 		nilIff = (best != nil) == (n != 0)
 	}
 	pol := a.selectionPolicy
+	// what the set has recorded as measured (dialerToLatency): the notion of "has a measurement"
+	// the tolerance clauses are about
+	lt := make([]string, len(dialers))
+	for i, d := range dialers {
+		if v, ok := a.dialerToLatency[d]; ok {
+			lt[i] = strconv.FormatInt(int64(v), 10)
+		} else {
+			lt[i] = "-"
+		}
+	}
 	a.mu.RUnlock()
 
 	sort.Ints(members)
@@ -118,13 +168,23 @@ func VerifC15SetDump(a *AliveDialerSet, dialers []*Dialer) string {
 	sb.WriteString(" best=" + verifC15Min(idx, bd, bl))
 	ex := make([]string, len(dialers))
 	sl := make([]string, len(dialers))
+	isMember := map[int]bool{}
+	for _, m := range members {
+		isMember[m] = true
+	}
 	for i, d := range dialers {
 		md, ml := a.GetMinLatency(d)
 		ex[i] = verifC15Min(idx, md, ml)
-		sl[i] = strconv.FormatInt(int64(a.SortingLatency(d)), 10)
+		// SortingLatency() of a node the set does not believe alive is outside the property: not compared
+		if isMember[i] {
+			sl[i] = strconv.FormatInt(int64(a.SortingLatency(d)), 10)
+		} else {
+			sl[i] = "-"
+		}
 	}
 	sb.WriteString(" ex=" + strings.Join(ex, ","))
 	sb.WriteString(" sl=" + strings.Join(sl, ","))
+	sb.WriteString(" lt=" + strings.Join(lt, ","))
 	sb.WriteString(" pol=" + string(pol))
 	b := func(x bool) string {
 		if x {
